@@ -13,7 +13,7 @@ def run(tier, seed):
     chk.assumptions = ['PARTIAL: the theorem covers the attachment writer / reader; objects, tags, tapers, transformations, sources, media and '
                        'load parameters are compared on the real code (same description, same feed impedance, second writing identical)',
                        'numbers are generated with at most as many digits as the writer prints, so the decimal round trip is exact']
-    standard_front(chk, 'Props/C15.v', needs_items=(), extra_vo=('Model/Options.v', 'Proofs/OptionsP.v', 'Model/Objects.v', 'Proofs/ObjectsP.v', 'Model/LoadOrder.v', 'Proofs/LoadOrderP.v', 'Model/SourceOpts.v', 'Proofs/SourceOptsP.v', 'Corr/OptDriver.v'))
+    standard_front(chk, 'Props/C15.v', needs_items=(), extra_vo=('Model/Options.v', 'Proofs/OptionsP.v', 'Model/Objects.v', 'Proofs/ObjectsP.v', 'Model/LoadOrder.v', 'Proofs/LoadOrderP.v', 'Model/MediaOpts.v', 'Proofs/MediaOptsP.v', 'Model/SourceOpts.v', 'Proofs/SourceOptsP.v', 'Corr/OptDriver.v'))
     rng = random.Random(seed)
     q = tier == 'quick'
     cases = [dict(id=i, seed=rng.randrange(10 ** 9)) for i in range(240 if q else 16000)]
@@ -46,4 +46,5 @@ def run(tier, seed):
     stage_cmd.run_objs(chk, good)
     stage_cmd.run_loads(chk, good)
     stage_cmd.run_srcs(chk, good)
+    stage_cmd.run_media(chk, random.Random(seed + 15), 150 if tier == 'quick' else 4000)
     return chk.finish()
